@@ -601,7 +601,7 @@ func engineC34(c *vctx) error {
 		}
 		num++
 	}
-	n := c.n(16, 900)
+	n := c.n(16, 500)
 	for i := 0; i < n; i++ {
 		if err := c34Scenario(c, c.rng.fork(), num, ""); err != nil {
 			return fmt.Errorf("scenario %d: %w", num, err)
